@@ -17,7 +17,27 @@ import (
 	"github.com/hashicorp/consul/internal/verifmc/world"
 )
 
-var services = []string{"a", "b", "c"}
+// (one name has an upper-case letter: entry names are looked up case-insensitively by the store's index, so every
+// place that matches entries by name has to agree on how it folds them)
+var services = []string{"a", "B", "c"}
+
+// variants of a stored entry that are tried as in-place updates (same kind and name, other content)
+var variants = map[string][]cmdlib.CE{}
+
+func init() {
+	for _, e := range menu() {
+		variants[kindName(e)] = append(variants[kindName(e)], e)
+	}
+	for _, s := range services {
+		for _, proto := range []string{"http", "tcp"} {
+			s, proto := s, proto
+			e := cmdlib.CE{Label: "service-defaults/" + s + ":" + proto + "+external-sni", Make: func() structs.ConfigEntry {
+				return &structs.ServiceConfigEntry{Kind: structs.ServiceDefaults, Name: s, Protocol: proto, ExternalSNI: s + ".example.com"}
+			}}
+			variants[kindName(e)] = append(variants[kindName(e)], e)
+		}
+	}
+}
 
 // extended: menu items added after the first pass; the quick tier admits at most one of them in a set of maximal size
 var extended = map[string]bool{}
@@ -287,6 +307,7 @@ func runCase(w *guard.W, m []cmdlib.CE, tc tcase) {
 	}
 	// (B) through the store, every write order
 	finals := map[string]string{} // stored entry set -> chains dump
+	firstPerm := true
 	for _, perm := range permutations(len(tc.set)) {
 		wd := world.New()
 		var order []string
@@ -324,6 +345,33 @@ func runCase(w *guard.W, m []cmdlib.CE, tc tcase) {
 				continue
 			}
 			checkChains(w, cl, "delete "+e.Label, append(append([]string{}, order...), "delete "+e.Label))
+		}
+		// in-place updates from the final state (first write order only): every other menu item of the same kind and name,
+		// and service-defaults that keep the protocol and add an external SNI
+		if firstPerm {
+			firstPerm = false
+			for _, pi := range perm {
+				stored := m[tc.set[pi]]
+				for vi, v := range variants[kindName(stored)] {
+					if v.Label == stored.Label || (vi > 5 && !strings.Contains(v.Label, "external-sni")) {
+						continue
+					}
+					cl := wd.Clone(nil)
+					before := cfgDump(cl)
+					res, ok := cl.Apply(v.Upsert())
+					if !ok {
+						continue
+					}
+					w.Add("store_updates", 1)
+					if strings.HasPrefix(res, "err:") || strings.HasPrefix(res, "PANIC") {
+						if cfgDump(cl) != before {
+							w.Violate("C15:rejected-write-changed-entries", fmt.Sprintf("update to %s was rejected (%s) but the stored entries changed", v.Label, res), map[string]any{"ops": cl.Hist})
+						}
+						continue
+					}
+					checkChains(w, cl, "update to "+v.Label, append(append([]string{}, order...), "update to "+v.Label))
+				}
+			}
 		}
 		key := strings.Join(wd.Dump(&dump.Options{MaskIndexes: true})["config-entries"], "\n")
 		cd := checkChains(nil, wd, "", nil)
